@@ -27,7 +27,7 @@ const (
 type boxKind struct {
 	name string
 	// doc returns the body of the document; decls are the transform declarations of the target
-	doc func(style string) string
+	doc func(decls string) string
 	// want: the rectangle the red background must be painted with (border box of the element)
 	want [4]float64
 	// ref: the reference box of the transform (nil: the painted rectangle)
@@ -41,7 +41,7 @@ type boxKind struct {
 
 func (k *boxKind) tag() string { return "box:" + k.name }
 
-func (k *boxKind) html(decls string) string { return cssHead + k.doc(kindStyle+decls) }
+func (k *boxKind) html(decls string) string { return cssHead + k.doc(decls) }
 
 func grow(top, bottom float64) func(r [4]float64) [4]float64 {
 	return func(r [4]float64) [4]float64 { return [4]float64{r[0], r[1] - top, r[2], r[3] + top + bottom} }
@@ -49,12 +49,12 @@ func grow(top, bottom float64) func(r [4]float64) [4]float64 {
 
 func boxKinds() []*boxKind {
 	div := func(pre, post string) func(string) string {
-		return func(style string) string { return pre + style + post }
+		return func(decls string) string { return pre + kindStyle + decls + post }
 	}
 	// "xy" is two Ahem glyphs = 20px: inline-level targets start at x=20 of a 20px tall line
 	inLine := func(display, open, close string) func(string) string {
-		return func(style string) string {
-			return `<div style="margin:10px">xy<` + open + ` style="display:` + display + `;vertical-align:top;` + style + `">` + close + `</div>`
+		return func(decls string) string {
+			return `<div style="margin:10px">xy<` + open + ` style="display:` + display + `;vertical-align:top;` + kindStyle + decls + `">` + close + `</div>`
 		}
 	}
 	cell := `<div style="display:table-row"><div style="display:table-cell"></div></div>`
@@ -75,6 +75,15 @@ func boxKinds() []*boxKind {
 			want: [4]float64{10, 10, 40, 20}, ref: grow(0, 10)},
 		// --- boxes inside tables
 		{name: "table-cell", doc: div(`<div style="display:table;margin:10px"><div style="display:table-row"><div style="display:table-cell;`, `"></div></div></div>`), want: [4]float64{10, 10, 40, 20}},
+		{name: "table-caption", doc: div(`<div style="display:table;margin:10px"><div style="display:table-caption;`, `"></div>`+cell+`</div>`), want: [4]float64{10, 10, 40, 20}},
+		// rows and row groups (transformable elements of CSS Transforms 1): the declarations are on
+		// the row / group, the red background on its only cell, whose border box is the row's
+		{name: "table-row", doc: func(decls string) string {
+			return `<div style="display:table;margin:10px"><div style="display:table-row;` + decls + `"><div style="display:table-cell;` + kindStyle + `"></div></div></div>`
+		}, want: [4]float64{10, 10, 40, 20}},
+		{name: "table-row-group", doc: func(decls string) string {
+			return `<div style="display:table;margin:10px"><div style="display:table-row-group;` + decls + `"><div style="display:table-row"><div style="display:table-cell;` + kindStyle + `"></div></div></div></div>`
+		}, want: [4]float64{10, 10, 40, 20}},
 		// --- list items (outside marker: a child box that carries a translate of its own)
 		{name: "list-item", doc: div(`<div style="display:list-item;list-style:disc outside;margin:10px 10px 10px 30px;`, `"></div>`), want: [4]float64{30, 10, 40, 20}},
 		{name: "list-item-inside", doc: div(`<div style="display:list-item;list-style:disc inside;margin:10px;`, `"></div>`), want: [4]float64{10, 10, 40, 20}},
@@ -88,6 +97,8 @@ func boxKinds() []*boxKind {
 		{name: "flex-item-inline", doc: div(`<div style="display:flex;margin:10px"><span style="flex:none;`, `"></span></div>`), want: [4]float64{10, 10, 40, 20}},
 		{name: "grid-container", doc: div(`<div style="display:grid;margin:10px;`, `"></div>`), want: [4]float64{10, 10, 40, 20}},
 		{name: "grid-item", doc: div(`<div style="display:grid;margin:10px;grid-template-columns:40px;grid-template-rows:20px"><div style="`, `"></div></div>`), want: [4]float64{10, 10, 40, 20}},
+		// --- a block inside a column box
+		{name: "column-child", doc: div(`<div style="position:absolute;left:10px;top:10px;columns:2;column-gap:0;width:100px"><div style="`, `"></div></div>`), want: [4]float64{10, 10, 40, 20}},
 		// --- blockified inline, replaced elements
 		{name: "float-inline", doc: div(`<div style="margin:10px"><span style="float:left;`, `"></span></div>`), want: [4]float64{10, 10, 40, 20}},
 		{name: "abs-inline", doc: div(`<div style="margin:10px"><span style="position:absolute;left:10px;top:10px;`, `"></span></div>`), want: [4]float64{10, 10, 40, 20}},
